@@ -3,6 +3,7 @@ CONSTANTS
   Machine <- GenMachine
   CrashPoints = FALSE
   RollFaults = TRUE
+  RollKills = TRUE
   MaxCount = 3
   Limit = 4
   MaxWrite = 6
